@@ -285,9 +285,24 @@ func init() {
 	reg("time.Now", func(fr *frame, a []value) value { return timeValue(fr.i.p) })
 	reg("time.Since", func(fr *frame, a []value) value { return int64(0) })
 	reg("time.Until", func(fr *frame, a []value) value { return int64(0) })
-	reg("time.Sleep", func(fr *frame, a []value) value { fr.i.sched.yield("Sleep"); return nil })
+	reg("time.Sleep", func(fr *frame, a []value) value {
+		sc := fr.i.sched
+		if sc.timed {
+			if _, ok := a[0].(int64); ok {
+				// virtual time: wait on a private timer
+				t := sc.newTimer(false, fr.i.namedType("time", "Time"))
+				sc.arm(t, a[0])
+				sc.timerBudget++ // sleeping is not one of the counted timer firings
+				sc.recv(t.ch)
+				return nil
+			}
+		}
+		sc.yield("Sleep")
+		return nil
+	})
 	reg("time.After", func(fr *frame, a []value) value {
 		t := fr.i.sched.newTimer(false, fr.i.namedType("time", "Time"))
+		fr.i.sched.arm(t, a[0])
 		return t.ch
 	})
 	reg("time.Tick", func(fr *frame, a []value) value {
@@ -297,6 +312,7 @@ func init() {
 	mkTimer := func(ticker bool) externalFn {
 		return func(fr *frame, a []value) value {
 			t := fr.i.sched.newTimer(ticker, fr.i.namedType("time", "Time"))
+			fr.i.sched.arm(t, a[0])
 			name := "Timer"
 			if ticker {
 				name = "Ticker"
@@ -329,6 +345,7 @@ func init() {
 		was := !t.stopped && !t.fired
 		t.stopped = false
 		t.fired = false
+		fr.i.sched.arm(t, a[1])
 		return was
 	})
 	reg("(*time.Ticker).Stop", func(fr *frame, a []value) value {
